@@ -4,7 +4,7 @@
 //   W <header timeout ms> <body timeout ms> <script>
 //        script = comma separated steps:  d<ms> wait;  p first half of the request line;  P rest of the request line;
 //        q whole request line;  h header lines (Host + Content-Length: 10);  e blank line ending the head;
-//        b 5 body bytes;  B 10 body bytes;  g a whole GET request without body
+//        c 2 body bytes;  b 5 body bytes;  B 10 body bytes;  g a whole GET request without body
 //        after the script the client reads until it has a complete response or EOF (at most body time-out + 2.5 s)
 //     -> W codes=<status codes received, in order, '-' if none> closed=<1 if the server closed the connection>
 //            handler=<times the handler ran>
@@ -121,6 +121,7 @@ static std::string handle(const std::string& line)
         case 'q': data = "GET /t HTTP/1.1\r\n"; break;
         case 'h': data = "Host: a\r\nContent-Length: 10\r\n"; break;
         case 'e': data = "\r\n"; break;
+        case 'c': data = "ab"; break;
         case 'b': data = "01234"; break;
         case 'B': data = "0123456789"; break;
         case 'g': data = "GET /t HTTP/1.1\r\nHost: a\r\n\r\n"; break;
